@@ -8,6 +8,10 @@ _T = ["decrypt_ok_iff_tag", "tag_change_rejected", "short_rejected", "failure_ou
       "macData_injective", "modification_rejected_partial"]
 THEOREMS = vcore.theorems_in("SodiumModel/Properties/C02.lean", _T, "Sodium.C02")
 IMPORTS = ["SodiumModel.Properties.C02"] if THEOREMS else ["SodiumModel.Model.Aead"]
+# AEGIS decryption in the C's structure: rc = 0 iff the tag matches, on failure the output is zeroed / untouched, short input rejected (for every length and backend conforming to the block interface)
+THEOREMS = THEOREMS + vcore.theorems_in("SodiumModel/Properties/C01Aegis.lean", ['aegis128l_decrypt_detached_eq', 'aegis256_decrypt_detached_eq', 'aegis128l_decrypt_detached_32', 'aegis256_decrypt_detached_32', 'decrypt_detached_failure_output', 'decrypt_detached_bad_maclen', 'aegis128l_decrypt_detached_rc', 'aegis256_decrypt_detached_rc', 'crypto_aead_aegis128l_decrypt_detached_eq', 'crypto_aead_aegis256_decrypt_detached_eq', 'crypto_aead_decrypt_short', 'crypto_aead_decrypt_combined', 'crypto_aead_aegis128l_decrypt_eq', 'crypto_aead_aegis256_decrypt_eq'], "Sodium.C01Aegis")
+IMPORTS = IMPORTS + ["SodiumModel.Properties.C01Aegis"]
+FINGERPRINTS = "C01"
 RULE = ("from valid (key, nonce, ad, ciphertext, tag) tuples of every message length 0..70 (+ sampled larger) for the six AEADs and both secretbox "
         "variants: every single-bit flip of the tag, bit flips at every position of ciphertext / ad / nonce / key, every truncation length, appended "
         "suffixes 1..17, with an output buffer (prefilled sentinel, compared in full) and in NULL-output verify-only mode; the generator asserts on the "
